@@ -9,6 +9,7 @@ import (
 	"math/big"
 	"sort"
 	"sync"
+	"sync/atomic"
 	"time"
 
 	"github.com/MinterTeam/minter-go-node/coreV2/transaction"
@@ -339,7 +340,8 @@ func Exec(w *worlds.World, h History, o Opts) *Trace {
 	r := NewRunner(w, o)
 	tr := r.Tr
 	tr.Hist = h
-	inFlight.Store(tr, time.Now())
+	fl := &flight{start: time.Now(), block: -1}
+	inFlight.Store(tr, fl)
 	defer inFlight.Delete(tr)
 	if o.KeepNode {
 		tr.Node = r.N
@@ -365,6 +367,13 @@ func Exec(w *worlds.World, h History, o Opts) *Trace {
 				tr.Pre = Capture(n, tr.Steps[bi-1].Obs.AppHash, o.NoDisk)
 			}
 		}
+		if IsPoisoned(w, h[:bi+1]) {
+			// an earlier process of this check was abandoned while executing this block
+			st := &Step{Block: b, Height: n.Height + 1, Obs: &lab.BlockObs{Height: n.Height + 1}}
+			r.fail(st, &lab.Fault{Call: "block", Kind: "hang", Value: "the block did not finish (no return within the watchdog's limits)", Top: "unknown"})
+			return tr
+		}
+		atomic.StoreInt32(&fl.block, int32(bi))
 		if !r.Block(b, last || o.CaptureAll) {
 			return tr
 		}
